@@ -1,4 +1,4 @@
-(** Model of src/epd2in66b/mod.rs — STUB, not yet transcribed. *)
+(** Model of src/epd2in66b/mod.rs (SSD1675B; enum values from src/epd2in66b/command.rs). *)
 From Coq Require Import List NArith Bool.
 From EPD Require Import Iface Ops Drv.Luts.
 Import ListNotations.
@@ -9,10 +9,135 @@ Module Epd2in66b.
 Definition WIDTH : N := 152.
 Definition HEIGHT : N := 296.
 
-Definition init : M unit := ret tt.
+(** ** command.rs: enum discriminants *)
+Definition DataEntrySign_IncYIncX : N := 0x3.   (* 0b11 *)
+Definition DataEntryRow_XMinor : N := 0x0.      (* 0b000 *)
+Definition WriteMode_Normal : N := 0x0.         (* 0b0000 *)
+Definition OutputSource_S8ToS167 : N := 0x80.
+Definition DeepSleep_SleepLosingRAM : N := 0x3. (* 0b11 *)
+Definition PatH_H296 : N := 0x60.               (* 0b110_0000 *)
+Definition PatW_W160 : N := 0x5.                (* 0b101 *)
+Definition StartWith_Zero : N := 0x00.
+Definition StartWith_One : N := 0x80.
 
-Definition exec (k : N) (o : op) : option (M rval) := None.
+(** ** mod.rs: helper functions *)
+Definition wait_until_idle : M unit := wait_idle false.
+
+Definition hw_reset : M unit :=
+  reset 20000 2000 ;;
+  wait_until_idle.
+
+Definition sw_reset : M unit :=
+  cmd 0x12 ;;
+  wait_until_idle.
+
+Definition data_entry_mode (row sign : N) : M unit :=
+  cmd_with_data 0x11 [bor row sign].
+
+Definition set_display_window (xstart ystart xend yend : N) : M unit :=
+  cmd_with_data 0x44 [u8 (band (shr xstart 3) 0x1f); u8 (band (shr xend 3) 0x1f)] ;;
+  cmd_with_data 0x45 [u8 (band ystart 0xff); u8 (band (shr ystart 8) 0x01);
+                      u8 (band yend 0xff); u8 (band (shr yend 8) 0x01)].
+
+Definition update_control1 (red_mode bw_mode source : N) : M unit :=
+  cmd_with_data 0x21 [bor (u8 (shl red_mode 4)) bw_mode; source].
+
+Definition set_cursor (x y : N) : M unit :=
+  cmd_with_data 0x4e [u8 (band (shr x 3) 0x1f)] ;;
+  cmd_with_data 0x4f [u8 (band y 0xff); u8 (band (shr y 8) 0x01)].
+
+Definition black_white_pattern (w h phase : N) : M unit :=
+  cmd_with_data 0x47 [bor (bor phase h) w] ;;
+  wait_until_idle.
+
+Definition red_pattern (w h phase : N) : M unit :=
+  cmd_with_data 0x46 [bor (bor phase h) w] ;;
+  wait_until_idle.
+
+(** InternalWiAdditions *)
+Definition init : M unit :=
+  hw_reset ;;
+  sw_reset ;;
+  data_entry_mode DataEntryRow_XMinor DataEntrySign_IncYIncX ;;
+  set_display_window 0 0 (WIDTH - 1) (HEIGHT - 1) ;;
+  update_control1 WriteMode_Normal WriteMode_Normal OutputSource_S8ToS167 ;;
+  set_cursor 0 0.
+
+(** WaveshareThreeColorDisplay *)
+Definition update_achromatic_frame (black : dexp) : M unit :=
+  set_cursor 0 0 ;;
+  cmd 0x24 ;;
+  data_e black.
+
+Definition update_chromatic_frame (chromatic : dexp) : M unit :=
+  set_cursor 0 0 ;;
+  cmd 0x26 ;;
+  data_e chromatic.
+
+Definition update_color_frame (black chromatic : dexp) : M unit :=
+  update_achromatic_frame black ;;
+  update_chromatic_frame chromatic.
+
+(** WaveshareDisplay *)
+Definition sleep : M unit :=
+  cmd_with_data 0x10 [DeepSleep_SleepLosingRAM].
+
+Definition wake_up : M unit := init.
+
+Definition update_frame (k len : N) : M unit :=
+  set_cursor 0 0 ;;
+  update_achromatic_frame (DArg k 0 0 len) ;;
+  red_pattern PatW_W160 PatH_H296 StartWith_Zero.
+
+(** update_achromatic_frame moves the cursor back to (0, 0) after set_cursor x y *)
+Definition update_partial_frame (k len x y width height : N) : M unit :=
+  xend <- add32 x width ;;
+  yend <- add32 y height ;;
+  set_display_window x y xend yend ;;
+  set_cursor x y ;;
+  update_achromatic_frame (DArg k 0 0 len) ;;
+  set_display_window 0 0 WIDTH HEIGHT.
+
+Definition display_frame : M unit :=
+  cmd 0x20 ;;
+  wait_until_idle.
+
+Definition update_and_display_frame (k len : N) : M unit :=
+  update_frame k len ;;
+  display_frame.
+
+Definition clear_frame : M unit :=
+  s <- get ;;
+  let '(white, red) :=
+    if bg s =? cBlack then (StartWith_Zero, StartWith_Zero)
+    else if bg s =? cWhite then (StartWith_One, StartWith_Zero)
+    else (StartWith_Zero, StartWith_One) in
+  black_white_pattern PatW_W160 PatH_H296 white ;;
+  red_pattern PatW_W160 PatH_H296 red.
+
+Definition set_lut : M unit := ret tt.
+
+Definition exec (k : N) (o : op) : option (M rval) :=
+  match o with
+  | OSleep => unit_ sleep
+  | OWakeUp => unit_ wake_up
+  | OSetBg c => unit_ (modify (set_bg c))
+  | OGetBg => Some (s <- get ;; ret (RColor (bg s)))
+  | OWidth => Some (ret (RNum WIDTH))
+  | OHeight => Some (ret (RNum HEIGHT))
+  | OUpdateFrame len => unit_ (update_frame k len)
+  | OUpdatePartial len x y w h => unit_ (update_partial_frame k len x y w h)
+  | ODisplay => unit_ display_frame
+  | OUpdateAndDisplay len => unit_ (update_and_display_frame k len)
+  | OClear => unit_ clear_frame
+  | OSetLut _ => unit_ set_lut
+  | OWaitIdle => unit_ wait_until_idle
+  | OUpdateColor l1 l2 => unit_ (update_color_frame (DArg k 0 0 l1) (DArg k 1 0 l2))
+  | OUpdateAchromatic len => unit_ (update_achromatic_frame (DArg k 0 0 len))
+  | OUpdateChromatic len => unit_ (update_chromatic_frame (DArg k 0 0 len))
+  | _ => None
+  end.
 
 Definition drv (ft : feat) : driver :=
-  mkDriver WIDTH HEIGHT true d0 init exec.
+  mkDriver WIDTH HEIGHT true (mkD cWhite 0 false false 0 None) init exec.
 End Epd2in66b.
